@@ -296,6 +296,7 @@ class Run:
         self.samples = {}
         self.dist = Counter()
         self.mismatches = []
+        self.nmis = Counter()
         self.infra = []
 
     def run(self, nproc=None):
@@ -340,7 +341,8 @@ class Run:
                 for k in distf(name, case):
                     self.dist[k] += 1
             if res is not None:
-                if len(self.mismatches) < 200:
+                self.nmis[name] += 1
+                if self.nmis[name] <= 40:
                     self.mismatches.append((name, case, res))
 
 
